@@ -9,7 +9,7 @@ Val(x) == [z |-> x.z, e |-> x.e, m |-> x.m]
 
 Clauses(r) ==
   LET A == Range(r.a)  B == Range(r.b)  C == Range(r.c)
-      names == <<"ab", "ba", "ac", "ca", "bc", "cb", "wab", "wba", "aug", "pab", "pac">>
+      names == <<"ab", "ba", "ac", "ca", "bc", "cb", "wab", "wba", "aug", "pab", "pac", "mab", "mac", "maa", "mbc">>
       ok == r.ok /\ \A i \in DOMAIN names : WF(r.d[names[i]])
       d(n) == Val(r.d[n])
       X == Range(r.ax)  Y == Range(r.bx)           \* A + {x}, B + {x} with x in neither
@@ -27,6 +27,7 @@ Clauses(r) ==
           /\ FixLeq(Fix(d("bc")), FixAdd(FixAdd(Fix(d("ba")), Fix(d("ac"))), Slack22))>>,
      <<"width-independent", ok => d("wab") = d("ab") /\ d("wba") = d("ba")>>,
      <<"one-against-many-path-agrees", ok => d("pab") = d("ab") /\ d("pac") = d("ac")>>,
+     <<"index-selected-bulk-paths-agree", ok => d("mab") = d("ab") /\ d("mac") = d("ac") /\ d("maa") = F32Zero /\ d("mbc") = d("bc")>>,
      <<"augmenting-both-strictly-decreases", ok => IF A = B THEN d("aug") = F32Zero ELSE F32Less(d("aug"), d("ab"))>>,
      <<"equals-correctly-rounded-ratio", ok => /\ d("ab") = Dist32(A, B) /\ d("ac") = Dist32(A, C) /\ d("bc") = Dist32(B, C)
                                                /\ d("aug") = Dist32(X, Y)>>,
